@@ -114,9 +114,9 @@ func main() {
 	}
 
 	// ---- budgets ----
-	nK, kOps := 150, 70      // programs rendered for Coq / ops each
-	nKBig, kBigOps := 2, 900 // larger rendered programs
-	nP, pOps := 3000, 250    // oracle-only programs
+	nK, kOps := 560, 70       // programs rendered for Coq / ops each
+	nKBig, kBigOps := 4, 1200 // larger rendered programs
+	nP, pOps := 3000, 250     // oracle-only programs
 	nPBig, pBigOps, pBigPool := 24, 30000, 4000
 	nConc, concWrites := 32, 4000
 	if a.Thorough() {
@@ -126,7 +126,7 @@ func main() {
 	}
 	if strings.HasPrefix(a.Extra, "search") {
 		nK, nKBig = 0, 0
-		nP, nPBig, nConc = 30000, 60, 60
+		nP, nPBig, nConc = 12000, 24, 24
 	}
 	r := vlib.NewRNG(a.Seed)
 
